@@ -219,3 +219,88 @@ SPECS["C17"] = ("""property C17: every access path agrees and index accounting n
    "forall t ks off, keys_unique t -> (forall k0 v0, In k0 ks -> ~ In (k0, v0) t) ->\n    len (put_all t ks off) = len t + len (nodup (list_eq_dec N.eq_dec) ks)",
    "put_all_count", "one entry per distinct key: two tags of one event equal up to pad182 share one key"),
   ], "")
+
+CODIMP = "From Pocket Require Import Escape JsonParse Codec EscapeProofs NumProofs HexProofs Db DbProofs."
+
+SPECS["C03"] = ("""property C03: all parsers are total and memory-safe on arbitrary bytes and buffer sizes.
+   PARTIAL.  Proved for ALL byte strings and ALL capacities (models with explicit Panic / OutOfFuel
+   outcomes, fuel = input length + 1): json_unescape and json_escape never panic and never run out
+   of fuel, json_unescape consumes no more than its input and writes no more than the capacity;
+   hex decoding (ids, pubkeys, signatures, HLL registers) and address parsing are total, and
+   decoded bytes are well-formed.  The event / filter / tags JSON parser models (JsonParse.v) are
+   decided per run by the differential check over the structured malformed stream (every prefix,
+   single-byte corruptions, deep nesting, digit runs, every output length; both profiles; guard
+   bytes); their totality is not yet a Coq theorem.""",
+  CODIMP, [
+  ("C03_unescape_total", "forall l cap, json_unescape l cap <> Panic /\\ json_unescape l cap <> OutOfFuel", "json_unescape_total", ""),
+  ("C03_unescape_consumed", "forall l cap n out, json_unescape l cap = Ok (n, out) -> n <= len l", "json_unescape_consumed", "consumed length <= input length"),
+  ("C03_unescape_fits", "forall l cap n out, json_unescape l cap = Ok (n, out) -> len out <= cap", "json_unescape_fits", "never writes beyond the supplied buffer"),
+  ("C03_escape_total", "forall l, json_escape l <> Panic /\\ json_escape l <> OutOfFuel", "json_escape_total", "incl. bytes decoding beyond U+10FFFF"),
+  ("C03_read_hex_total", "forall input n, read_hex input n <> Panic /\\ read_hex input n <> OutOfFuel", "read_hex_total", "incl. bytes >= 0x80"),
+  ("C03_read_hex_wellformed", "forall input out, read_hex_pairs input = Ok out -> wf_bytes out /\\ len input = 2 * len out", "read_hex_pairs_ok", ""),
+  ("C03_addr_parse_total", "forall input, addr_parse input <> Panic /\\ addr_parse input <> OutOfFuel", "addr_parse_total", ""),
+  ], "")
+
+SPECS["C01"] = ("""property C01: event JSON parsing is faithful to an independent JSON parser.
+   PARTIAL.  Proved: the integer members are read as exactly the numeric value of their digit run
+   and a value that does not fit the field (kind > 65535, created_at >= 2^64) is an error, never
+   wrapped; whatever integer is accepted fits.  The theorem "parse (render t) = enc_event (denote t)
+   for every text t of the grammar" is not yet proved in Coq; it is decided per run by the
+   differential check against python's json module (member orders, whitespace, escape spellings,
+   unknown members, boundaries) and against the parser model (exact).""",
+  CODIMP, [
+  ("C01_created_at_value_partial",
+   "forall l, read_u64 l = let '(ds, rest) := span_digits l in\n    match ds with [] => Err EJson | _ => if num_of ds <=? 18446744073709551615 then Ok (num_of ds, rest) else Err EJson end",
+   "read_u64_spec", "digit run of any length: its value, or an error when >= 2^64"),
+  ("C01_kind_value_partial",
+   "forall l, read_kind l = let '(ds, rest) := span_digits l in\n    match ds with [] => Err EJson | _ => if num_of ds <=? 65535 then Ok (num_of ds, rest) else Err EJson end",
+   "read_kind_spec", ""),
+  ("C01_int_no_wrap_u64", "forall l v r, read_u64 l = Ok (v, r) -> v < 18446744073709551616", "read_u64_fits", ""),
+  ("C01_int_no_wrap_kind", "forall l v r, read_kind l = Ok (v, r) -> v < 65536", "read_kind_fits", ""),
+  ], """Example C01_example :
+  read_u64 [49;56;52;52;54;55;52;52;48;55;51;55;48;57;53;53;49;54;49;53;44] = Ok (18446744073709551615, [44]) /\\
+  read_u64 [49;56;52;52;54;55;52;52;48;55;51;55;48;57;53;53;49;54;49;54;44] = Err EJson /\\
+  read_kind [54;53;53;51;54] = Err EJson.
+Proof. vm_compute. repeat split. Qed.
+""")
+
+SPECS["C07"] = ("""property C07: filter JSON parsing is faithful, order-independent and round-trips.
+   PARTIAL.  Proved: since/until/kinds/limit are read as the numeric value of their digit run, values
+   >= 2^64 are errors (limit is then saturated to 2^32-1 by N.min in the model), accepted values fit.
+   Faithfulness, order independence and the as_json round trip are decided per run by the differential
+   check (all 52x52 letter pairs, member orders, escapes, boundaries; python json as independent parser).""",
+  CODIMP, [
+  ("C07_integer_value_partial",
+   "forall l, read_u64 l = let '(ds, rest) := span_digits l in\n    match ds with [] => Err EJson | _ => if num_of ds <=? 18446744073709551615 then Ok (num_of ds, rest) else Err EJson end",
+   "read_u64_spec", ""),
+  ("C07_int_no_wrap", "forall l v r, read_u64 l = Ok (v, r) -> v < 18446744073709551616", "read_u64_fits", ""),
+  ], "")
+
+SPECS["C02"] = ("""property C02: event binary <-> JSON round trip is lossless and the binary form is canonical.
+   PARTIAL.  Proved: the hex half of the round trip (read_hex (write_hex b) = b for ids, pubkeys,
+   signatures), string unescaping never writes beyond its buffer, and the binary encoding is a
+   function of the seven field values alone (Ctor/Access theorems of C19: from_parts writes exactly
+   enc_event e and every accessor returns the field).  Losslessness through json_escape/json_unescape
+   and canonicity across texts are decided per run by the differential check (5 texts per event,
+   3 buffer fills, from_parts, python json on as_json's output, byte equality).""",
+  CODIMP + "\nFrom Pocket Require Import Ctor CtorProofs Access.", [
+  ("C02_hex_roundtrip_partial", "forall bs, wf_bytes bs -> read_hex (write_hex bs) (len bs) = Ok bs", "read_write_hex", ""),
+  ("C02_binary_form_is_function_of_fields_partial",
+   "forall e out, wf_aevent e -> fits_event e -> event_size e <= len out ->\n    exists b, event_from_parts e out = Ok b /\\ take (event_size e) b = enc_event e /\\ drop (event_size e) b = drop (event_size e) out /\\\n              len b = len out /\\ ev_delineate b = Ok (enc_event e) /\\ event_accessors_ok e (enc_event e)",
+   "event_ctor_faithful", "independent of the buffer's prior contents"),
+  ], "")
+
+SPECS["C08"] = ("""property C08: event verification accepts exactly correctly hashed and signed events.
+   PARTIAL.  The canonical serialisation hashed by verify/sign_new is the Coq function Codec.canon
+   ([0,"<pubkey hex>",<created_at>,<kind>,<tags>,"<content>"], json_escape spellings); proved: it is
+   total (no panic) for every event, and its string escaper is total on arbitrary bytes.  That
+   SHA-256(canon) is the id the library computes, that verify accepts signed events and rejects every
+   single-field mutation, is decided per run against python's hashlib and the real secp256k1
+   (SHA-256 collision resistance and BIP-340 unforgeability are assumptions, not theorems).""",
+  CODIMP + "\nFrom Pocket Require Import CanonProofs.", [
+  ("C08_canon_total_partial", "forall e, canon e <> OutOfFuel", "canon_no_fuel", ""),
+  ("C08_escape_total", "forall l, json_escape l <> Panic /\\ json_escape l <> OutOfFuel", "json_escape_total", ""),
+  ("C08_canon_shape_partial",
+   "forall e tj cj, tags_as_json (e_tags e) = Ok tj -> json_escape (e_content e) = Ok cj ->\n    canon e = Ok ([91; 48; 44; 34] ++ write_hex (e_pk e) ++ [34; 44] ++ dec (e_created e) ++ [44] ++ dec (e_kind e)\n                  ++ [44] ++ tj ++ [44; 34] ++ cj ++ [34; 93])",
+   "canon_shape", "the NIP-01 array, no whitespace"),
+  ], "")
